@@ -311,6 +311,166 @@ Proof. intros H E. subst c. vm_compute in H. discriminate. Qed.
 Lemma dnat_rule_no_hp p c : has_prefix hp_prefix c = true -> r_target (dnat_rule p) <> c.
 Proof. intros H E. subst c. vm_compute in H. discriminate. Qed.
 
+(** ================================================================== removing rules one by one *)
+Definition rule_eq_dec (a b : rule) : {a = b} + {a <> b}.
+Proof.
+  destruct (rule_eqb a b) eqn:E.
+  - left. apply rule_eqb_eq. exact E.
+  - right. intros H. apply rule_eqb_eq in H. congruence.
+Defined.
+Notation rcount := (count_occ rule_eq_dec).
+
+(** DeleteRule for each rule of [J] in turn, seen on the chain's rule list *)
+Fixpoint rmfold (J rs : list rule) : list rule :=
+  match J with
+  | [] => rs
+  | r :: J' => rmfold J' (remove_first r rs)
+  end.
+Definition notin (J : list rule) (x : rule) : bool := negb (rule_in x J).
+
+Lemma in_firstn {A} k (l : list A) x : In x (firstn k l) -> In x l.
+Proof. intros H. rewrite <- (firstn_skipn k l). apply in_or_app. left. exact H. Qed.
+
+Lemma NoDup_firstn {A} k (l : list A) : NoDup l -> NoDup (firstn k l).
+Proof.
+  revert k. induction l as [|a l IH]; intros k H; destruct k as [|k]; simpl; try constructor.
+  - inversion H as [|? ? Ha Hl]. subst. intros Hin. apply Ha. exact (in_firstn k l a Hin).
+  - inversion H as [|? ? Ha Hl]. subst. apply IH. exact Hl.
+Qed.
+
+Lemma rcount_firstn_le k (l : list rule) x : (rcount (firstn k l) x <= rcount l x)%nat.
+Proof. rewrite <- (firstn_skipn k l) at 2. rewrite count_occ_app. lia. Qed.
+
+Lemma rcount_remove_first r x rs :
+  rcount (remove_first r rs) x = if rule_eq_dec r x then Nat.pred (rcount rs x) else rcount rs x.
+Proof.
+  induction rs as [|y rs IH].
+  - simpl. destruct (rule_eq_dec r x); reflexivity.
+  - cbn [remove_first]. destruct (rule_eqb r y) eqn:E.
+    + apply rule_eqb_eq in E. subst y. destruct (rule_eq_dec r x) as [E1|E1].
+      * rewrite (count_occ_cons_eq rule_eq_dec rs E1). reflexivity.
+      * rewrite (count_occ_cons_neq rule_eq_dec rs E1). reflexivity.
+    + destruct (rule_eq_dec y x) as [E2|E2].
+      * rewrite !(count_occ_cons_eq rule_eq_dec _ E2), IH.
+        destruct (rule_eq_dec r x) as [E1|E1]; [|reflexivity].
+        exfalso. subst. rewrite rule_eqb_refl in E. discriminate.
+      * rewrite !(count_occ_cons_neq rule_eq_dec _ E2), IH. reflexivity.
+Qed.
+
+Lemma rcount_rmfold J : forall rs x, rcount (rmfold J rs) x = (rcount rs x - rcount J x)%nat.
+Proof.
+  induction J as [|r J IH]; intros rs x; cbn [rmfold].
+  - simpl. lia.
+  - rewrite IH, rcount_remove_first. destruct (rule_eq_dec r x) as [E|E].
+    + rewrite (count_occ_cons_eq rule_eq_dec J E). lia.
+    + rewrite (count_occ_cons_neq rule_eq_dec J E). reflexivity.
+Qed.
+
+Lemma rmfold_nil J : rmfold J [] = [].
+Proof. induction J as [|r J IH]; [reflexivity|exact IH]. Qed.
+
+Lemma filter_remove_first J r rs :
+  rule_in r J = true -> filter (notin J) (remove_first r rs) = filter (notin J) rs.
+Proof.
+  intros H. induction rs as [|y rs IH]; [reflexivity|].
+  cbn [remove_first]. destruct (rule_eqb r y) eqn:E.
+  - apply rule_eqb_eq in E. subst y. cbn [filter]. unfold notin at 2. rewrite H. reflexivity.
+  - cbn [filter]. rewrite IH. reflexivity.
+Qed.
+
+Lemma filter_rmfold J0 J : forall rs,
+  (forall r, In r J -> In r J0) -> filter (notin J0) (rmfold J rs) = filter (notin J0) rs.
+Proof.
+  induction J as [|r J IH]; intros rs H; [reflexivity|].
+  cbn [rmfold]. rewrite IH by (intros r' Hr'; apply H; right; exact Hr').
+  apply filter_remove_first. apply rule_in_In. apply H. left. reflexivity.
+Qed.
+
+Lemma filter_notin_id J l : (forall r, In r J -> ~ In r l) -> filter (notin J) l = l.
+Proof.
+  induction l as [|y l IH]; intros H; [reflexivity|].
+  cbn [filter]. assert (notin J y = true) as E.
+  { unfold notin. destruct (rule_in y J) eqn:Ey; [|reflexivity].
+    apply rule_in_In in Ey. exfalso. apply (H y Ey). left. reflexivity. }
+  rewrite E. f_equal. apply IH. intros r Hr Hin. apply (H r Hr). right. exact Hin.
+Qed.
+
+Lemma filter_notin_none J l : (forall r, In r l -> In r J) -> filter (notin J) l = [].
+Proof.
+  induction l as [|y l IH]; intros H; [reflexivity|].
+  cbn [filter]. assert (notin J y = false) as E.
+  { unfold notin. assert (rule_in y J = true) as Ey by (apply rule_in_In; apply H; left; reflexivity).
+    rewrite Ey. reflexivity. }
+  rewrite E. apply IH. intros r Hr. apply H. right. exact Hr.
+Qed.
+
+(** when no rule of [J] occurs more often than [J] names it, deleting them one by one leaves exactly
+    the other rules, in order *)
+Lemma rmfold_exact J X :
+  (forall r, In r J -> (rcount X r <= rcount J r)%nat) -> rmfold J X = filter (notin J) X.
+Proof.
+  intros H. transitivity (filter (notin J) (rmfold J X)).
+  - symmetry. apply filter_notin_id. intros r Hr. apply (count_occ_not_In rule_eq_dec).
+    rewrite rcount_rmfold. specialize (H r Hr). lia.
+  - apply filter_rmfold. intros r Hr. exact Hr.
+Qed.
+
+(** deleting some of the rules first and then all of them ends in the same list, provided the full
+    loop leaves none of them *)
+Lemma rmfold_resume J J' rs :
+  (forall r, In r J' -> In r J) -> (forall r, In r J -> ~ In r (rmfold J rs)) ->
+  rmfold J (rmfold J' rs) = rmfold J rs.
+Proof.
+  intros Hsub Hnone.
+  assert (forall r, In r J -> (rcount rs r <= rcount J r)%nat) as Hc.
+  { intros r Hr. pose proof (Hnone r Hr) as H. apply (count_occ_not_In rule_eq_dec) in H.
+    rewrite rcount_rmfold in H. lia. }
+  rewrite (rmfold_exact J rs Hc). rewrite rmfold_exact.
+  - apply filter_rmfold. exact Hsub.
+  - intros r Hr. rewrite rcount_rmfold. specialize (Hc r Hr). lia.
+Qed.
+
+(** ------------------------------------------------------------------ table facts *)
+Lemma tset_same_id c rs t : tlookup c t = Some rs -> tset c rs t = t.
+Proof.
+  induction t as [|[n x] t IH]; simpl; intros H; [discriminate|].
+  destruct (str_eqb c n) eqn:E.
+  - inversion H. reflexivity.
+  - rewrite IH by exact H. reflexivity.
+Qed.
+
+Lemma tset_tset c a b t : tset c b (tset c a t) = tset c b t.
+Proof.
+  induction t as [|[n x] t IH]; simpl.
+  - rewrite str_eqb_refl. reflexivity.
+  - destruct (str_eqb c n) eqn:E; simpl; rewrite E; [reflexivity|]. rewrite IH. reflexivity.
+Qed.
+
+Lemma rule_ok_tset_chain sets c rs0 rs t r :
+  tlookup c t = Some rs0 -> rule_ok sets (tset c rs t) r = rule_ok sets t r.
+Proof.
+  intros H. apply rule_ok_ext. rewrite has_chain_tset.
+  destruct (str_eqb_spec (r_target r) c) as [E|E]; [|reflexivity].
+  rewrite E. rewrite (has_chain_some _ _ _ H). reflexivity.
+Qed.
+
+(** DeleteRule: an error when the rule cannot be checked (its target chain is missing); otherwise the
+    first copy of the rule, if any, is taken out of the chain, if there is one *)
+Lemma delete_rule_cases sets c r t :
+  delete_rule sets c r t =
+  if rule_ok sets t r then
+    match tlookup c t with
+    | Some rs => (tset c (remove_first r rs) t, true)
+    | None => (t, true)
+    end
+  else (t, false).
+Proof.
+  unfold delete_rule. destruct (rule_ok sets t r); [|reflexivity]. cbn [negb].
+  destruct (tlookup c t) as [rs|] eqn:E; [|reflexivity].
+  destruct (rule_in r rs) eqn:Ei; [reflexivity|].
+  rewrite remove_first_absent by exact Ei. rewrite tset_same_id by exact E. reflexivity.
+Qed.
+
 (** ================================================================== the NAT table procedures *)
 Section Tables.
 Variable cname : port -> str.
@@ -483,17 +643,202 @@ Proof.
     + eapply tpres_trans; [apply tpres_tset|exact Hp'].
 Qed.
 
-(** ---- SetupPortMapping followed by CleanPortMapping *)
-Lemma setup_clean_inverse_l : forall (t : table) (ps : list port),
-  has_chain hostports t = true ->
+(** ---- the DeleteRule loop as one update of KUBE-HOSTPORTS *)
+Definition jumps (ps : list port) : list rule := map (jump_rule cname) ps.
+
+Lemma delete_jumps_nochain ps : forall t t' ok,
+  tlookup hostports t = None -> delete_jumps cname ps t = (t', ok) -> t' = t.
+Proof.
+  induction ps as [|p ps IH]; intros t t' ok Hl H; cbn [delete_jumps] in H.
+  - inversion H. reflexivity.
+  - rewrite delete_rule_cases, Hl in H. destruct (rule_ok [] t (jump_rule cname p)).
+    + exact (IH _ _ _ Hl H).
+    + inversion H. reflexivity.
+Qed.
+
+Lemma delete_jumps_chain ps : forall t rs t',
+  tlookup hostports t = Some rs -> delete_jumps cname ps t = (t', true) ->
+  t' = tset hostports (rmfold (jumps ps) rs) t /\
+  forall p, In p ps -> rule_ok [] t (jump_rule cname p) = true.
+Proof.
+  induction ps as [|p ps IH]; intros t rs t' Hl H; cbn [delete_jumps] in H.
+  - inversion H. subst t'. split; [|intros p []]. symmetry. apply tset_same_id. exact Hl.
+  - rewrite delete_rule_cases, Hl in H.
+    destruct (rule_ok [] t (jump_rule cname p)) eqn:Eok; [|discriminate].
+    destruct (IH _ _ _ (tlookup_tset_same hostports _ t) H) as [E Hok]. split.
+    + rewrite E, tset_tset. reflexivity.
+    + intros q [Hq|Hq]; [subst q; exact Eok|].
+      rewrite <- (Hok q Hq). symmetry. apply (rule_ok_tset_chain [] hostports rs). exact Hl.
+Qed.
+
+Lemma delete_jumps_chain_run ps : forall t rs,
+  tlookup hostports t = Some rs ->
+  (forall p, In p ps -> rule_ok [] t (jump_rule cname p) = true) ->
+  delete_jumps cname ps t = (tset hostports (rmfold (jumps ps) rs) t, true).
+Proof.
+  induction ps as [|p ps IH]; intros t rs Hl Hok; cbn [delete_jumps].
+  - cbn [jumps map rmfold]. rewrite tset_same_id by exact Hl. reflexivity.
+  - rewrite delete_rule_cases, Hl, (Hok p (or_introl eq_refl)).
+    rewrite (IH _ (remove_first (jump_rule cname p) rs)).
+    + rewrite tset_tset. reflexivity.
+    + apply tlookup_tset_same.
+    + intros q Hq. rewrite (rule_ok_tset_chain [] hostports rs) by exact Hl. apply Hok. right. exact Hq.
+Qed.
+
+(** chain lines in general (built-in chains are left alone) *)
+Lemma chain_lines_lookup sets cs : forall t,
+  exists t', apply_lines sets t (map LChain cs) = Some t' /\
+    forall x, tlookup x t' = if mem x cs && negb (is_builtin x) then Some [] else tlookup x t.
+Proof.
+  induction cs as [|c cs IH]; intros t.
+  - exists t. split; [reflexivity|]. intros x. reflexivity.
+  - cbn [map apply_lines apply_line]. destruct (is_builtin c) eqn:Eb.
+    + destruct (IH t) as [t' [Ha Hl]]. exists t'. split; [exact Ha|].
+      intros x. rewrite Hl, mem_cons. destruct (str_eqb_spec x c) as [E|E]; [|reflexivity].
+      subst x. rewrite Eb. cbn [negb]. rewrite !andb_false_r. reflexivity.
+    + destruct (IH (tset c [] t)) as [t' [Ha Hl]]. exists t'. split; [exact Ha|].
+      intros x. rewrite Hl, mem_cons, tlookup_tset. destruct (str_eqb_spec x c) as [E|E]; [|reflexivity].
+      subst x. rewrite Eb. cbn [negb orb]. rewrite andb_true_r. destruct (mem c cs); reflexivity.
+Qed.
+
+(** chain lines over chains that are already there and empty change nothing *)
+Lemma chain_lines_fix sets cs : forall t,
+  (forall c, In c cs -> is_builtin c = false -> tlookup c t = Some []) ->
+  apply_lines sets t (map LChain cs) = Some t.
+Proof.
+  induction cs as [|c cs IH]; intros t H; [reflexivity|].
+  cbn [map apply_lines apply_line]. destruct (is_builtin c) eqn:Eb.
+  - apply IH. intros c' Hc'. apply H. right. exact Hc'.
+  - rewrite tset_same_id by (apply H; [left; reflexivity|exact Eb]).
+    apply IH. intros c' Hc'. apply H. right. exact Hc'.
+Qed.
+
+(** accepted -X lines: no chain that stays had a rule jumping to a deleted chain *)
+Lemma delete_lines_unref sets cs : forall t t',
+  apply_lines sets t (map LDelete cs) = Some t' ->
+  forall c x rs, In c cs -> ~ In x cs -> tlookup x t = Some rs -> chain_refs c rs = false.
+Proof.
+  induction cs as [|a cs IH]; intros t t' H c x rs Hc Hx Hl; [contradiction|].
+  cbn [map apply_lines apply_line] in H.
+  destruct (tlookup a t) as [[|r0 l0]|] eqn:Ea; try discriminate.
+  destruct (is_builtin a || referenced a t) eqn:Er; [discriminate|].
+  apply orb_false_iff in Er. destruct Er as [_ Er].
+  destruct Hc as [Hc|Hc].
+  - subst a. exact (referenced_false_lookup _ _ _ _ Er Hl).
+  - apply (IH _ _ H c x rs Hc).
+    + intros Hin. apply Hx. right. exact Hin.
+    + rewrite tlookup_tremove. assert (str_eqb x a = false) as E.
+      { apply str_eqb_neq. intros E. apply Hx. left. symmetry. exact E. }
+      rewrite E. exact Hl.
+Qed.
+
+(** ---- CleanPortMapping from any table that is the original one plus (some of) the ports' chains,
+    a rewritten KUBE-MARK-MASQ and some of the ports' jump rules at the end of KUBE-HOSTPORTS: it is
+    accepted and gives back the original table (KUBE-MARK-MASQ stays as it is) *)
+Lemma clean_from (t tX : table) (ps : list port) (rs0 Jx : list rule) :
+  tlookup hostports t = Some rs0 ->
   NoDup (map cname ps) ->
   (forall p, In p ps -> proto_plain p) ->
   (forall p, In p ps -> fresh_chain t (cname p)) ->
-  exists t1 t2, setup cname ps t = (t1, true) /\ clean cname ps t1 = (t2, true) /\
-    forall c, c <> markmasq -> tlookup c t2 = tlookup c t.
+  tpres t tX ->
+  (forall x, x <> markmasq -> x <> hostports -> ~ In x (map cname ps) -> tlookup x tX = tlookup x t) ->
+  (forall rsm c, tlookup markmasq tX = Some rsm -> In c (map cname ps) -> chain_refs c rsm = false) ->
+  tlookup hostports tX = Some (rs0 ++ Jx) ->
+  (forall r, (rcount Jx r <= rcount (jumps ps) r)%nat) ->
+  exists t2, clean cname ps tX = (t2, true) /\
+    (forall c, c <> markmasq -> tlookup c t2 = tlookup c t) /\
+    tlookup markmasq t2 = tlookup markmasq tX.
 Proof.
-  intros t ps Hh Hnd Hplain Hfresh.
-  apply has_chain_lookup in Hh. destruct Hh as [rs0 Hh].
+  intros Hh Hnd Hplain Hfresh HpX HXo HXm HXh HJx.
+  assert (forall c, In c (map cname ps) ->
+            has_prefix hp_prefix c = true /\ tlookup c t = None /\ referenced c t = false) as Hnames.
+  { intros c Hin. apply in_map_iff in Hin. destruct Hin as [p [E Hp]]. subst c.
+    destruct (Hfresh p Hp) as [H1 [H2 H3]]. split; [exact H3|split; assumption]. }
+  assert (~ In markmasq (map cname ps)) as Hmm.
+  { intros Hin. destruct (Hnames _ Hin) as [H _]. rewrite markmasq_no_prefix in H. discriminate. }
+  assert (~ In hostports (map cname ps)) as Hhp.
+  { intros Hin. destruct (Hnames _ Hin) as [H _]. rewrite hostports_no_prefix in H. discriminate. }
+  assert (forall c, In c (map cname ps) -> is_builtin c = false) as Hnb.
+  { intros c Hin. apply hp_not_builtin. apply Hnames. exact Hin. }
+  assert (mem hostports (map cname ps) = false) as Emh by (apply mem_false; exact Hhp).
+  assert (mem markmasq (map cname ps) = false) as Emm by (apply mem_false; exact Hmm).
+  (* the first batch: the ports' chains exist and are empty *)
+  destruct (apply_chain_lines [] (map cname ps) tX Hnb) as [tA [HaA [HlA HpA]]].
+  assert (tlookup hostports tA = Some (rs0 ++ Jx)) as HAh by (rewrite HlA, Emh; exact HXh).
+  (* the jumps *)
+  assert (forall r, In r (jumps ps) -> ~ In r rs0) as Hrs0.
+  { intros r Hr Hin. unfold jumps in Hr. apply in_map_iff in Hr. destruct Hr as [p [E Hp]]. subst r.
+    destruct (Hnames _ (in_map cname _ _ Hp)) as [_ [_ H3]].
+    pose proof (referenced_false_lookup _ _ _ _ H3 Hh) as Hr.
+    assert (rule_in (jump_rule cname p) rs0 = false) as Hri by (apply rule_in_no_refs; exact Hr).
+    apply rule_in_In in Hin. congruence. }
+  assert (rmfold (jumps ps) (rs0 ++ Jx) = rs0) as Hrm.
+  { rewrite rmfold_exact.
+    - rewrite filter_app, filter_notin_id by exact Hrs0. rewrite filter_notin_none; [apply app_nil_r|].
+      intros r Hr. apply (count_occ_In rule_eq_dec). apply (count_occ_In rule_eq_dec) in Hr.
+      specialize (HJx r). lia.
+    - intros r Hr. rewrite count_occ_app.
+      pose proof (Hrs0 r Hr) as H0. apply (count_occ_not_In rule_eq_dec) in H0.
+      specialize (HJx r). lia. }
+  assert (delete_jumps cname ps tA = (tset hostports rs0 tA, true)) as HeD.
+  { rewrite (delete_jumps_chain_run ps tA _ HAh); [rewrite Hrm; reflexivity|].
+    intros p Hp. apply jump_rule_ok.
+    - apply (has_chain_some _ _ []). rewrite HlA.
+      assert (mem (cname p) (map cname ps) = true) as E by (apply mem_In; apply in_map; exact Hp).
+      rewrite E. reflexivity.
+    - apply Hnb. apply in_map. exact Hp.
+    - apply rule_sets_jump. apply Hplain. exact Hp. }
+  set (tD := tset hostports rs0 tA) in *.
+  assert (forall x, tlookup x tD = if str_eqb x hostports then Some rs0 else tlookup x tA) as HlD.
+  { intros x. unfold tD. apply tlookup_tset. }
+  (* the second batch *)
+  destruct (apply_chain_lines [] (map cname ps) tD Hnb) as [tE [HaE [HlE HpE]]].
+  assert (tpres t tE) as HpresE.
+  { eapply tpres_trans; [exact HpX|]. eapply tpres_trans; [exact HpA|].
+    eapply tpres_trans; [apply tpres_tset|exact HpE]. }
+  destruct (apply_deletes [] (map cname ps) tE Hnd) as [tF [HaF [HlF HpF]]].
+  { intros c Hin. destruct (Hnames c Hin) as [H1 [H2 H3]].
+    split; [|split; [apply Hnb; exact Hin|]].
+    - rewrite HlE. apply mem_In in Hin. rewrite Hin. reflexivity.
+    - apply referenced_false_intro.
+      + apply (tpres_srefs_false t tE c HpresE). apply referenced_false_srefs. exact H3.
+      + intros n rs. rewrite HlE. destruct (mem n (map cname ps)) eqn:Em.
+        { intros E. inversion E. reflexivity. }
+        rewrite HlD. destruct (str_eqb_spec n hostports) as [En|En].
+        { intros E. inversion E. subst rs. exact (referenced_false_lookup _ _ _ _ H3 Hh). }
+        rewrite HlA, Em. destruct (str_eqb_spec n markmasq) as [En'|En'].
+        { subst n. intros E. exact (HXm rs c E Hin). }
+        apply mem_false in Em. rewrite HXo by assumption.
+        intros E. exact (referenced_false_lookup _ _ _ _ H3 E). }
+  exists tF. split; [|split].
+  - unfold clean, clean_pre_batch. rewrite <- (map_map cname LChain).
+    rewrite (restore_some _ _ _ _ HaA). rewrite HeD. rewrite clean_batch_eq.
+    apply restore_some. exact (apply_lines_app_some _ _ _ _ _ _ HaE HaF).
+  - intros c Hc. rewrite HlF. destruct (mem c (map cname ps)) eqn:Em.
+    + apply mem_In in Em. destruct (Hnames c Em) as [_ [H2 _]]. symmetry. exact H2.
+    + rewrite HlE, Em, HlD. destruct (str_eqb_spec c hostports) as [En|En].
+      * subst c. symmetry. exact Hh.
+      * rewrite HlA, Em. apply mem_false in Em. apply HXo; assumption.
+  - rewrite HlF, Emm, HlE, Emm, HlD.
+    assert (str_eqb markmasq hostports = false) as E.
+    { apply str_eqb_neq. intros E. symmetry in E. exact (hostports_ne_markmasq E). }
+    rewrite E, HlA, Emm. reflexivity.
+Qed.
+
+(** ---- SetupPortMapping: the batch, then the first [m] EnsureRule calls *)
+Lemma setup_prefix_l : forall (t : table) (ps : list port) (rs0 : list rule) (m : nat),
+  tlookup hostports t = Some rs0 ->
+  NoDup (map cname ps) ->
+  (forall p, In p ps -> proto_plain p) ->
+  (forall p, In p ps -> fresh_chain t (cname p)) ->
+  exists tB tC, restore [] t (setup_batch cname ps) = (tB, true) /\
+    ensure_jumps cname (firstn m ps) tB = (tC, true) /\
+    tpres t tC /\
+    (forall x, x <> markmasq -> x <> hostports -> ~ In x (map cname ps) -> tlookup x tC = tlookup x t) /\
+    tlookup markmasq tC = Some [mark_rule] /\
+    tlookup hostports tC = Some (rs0 ++ jumps (firstn m ps)).
+Proof.
+  intros t ps rs0 m Hh Hnd Hplain Hfresh.
   assert (forall c, In c (map cname ps) ->
             has_prefix hp_prefix c = true /\ tlookup c t = None /\ referenced c t = false) as Hnames.
   { intros c Hin. apply in_map_iff in Hin. destruct Hin as [p [E Hp]]. subst c.
@@ -542,50 +887,215 @@ Proof.
   (* the jumps *)
   assert (tlookup hostports tB = Some rs0) as HBh.
   { rewrite HBo; [exact Hh|exact hostports_ne_markmasq|exact Hhp]. }
-  assert (forall t', (forall p, In p ps -> has_chain (cname p) t' = true) -> jumps_pre ps t' rs0) as Hjp.
-  { intros t' Hc p Hp. destruct (Hnames (cname p) (in_map cname _ _ Hp)) as [H1 [H2 H3]].
-    split; [apply Hc; exact Hp|]. split; [apply hp_not_builtin; exact H1|].
+  assert (NoDup (map cname (firstn m ps))) as Hndm.
+  { rewrite <- firstn_map. apply NoDup_firstn. exact Hnd. }
+  destruct (ensure_jumps_ok (firstn m ps) tB rs0 Hndm HBh) as [tC [HeC [HlC HpC]]].
+  { intros p Hp. apply in_firstn in Hp.
+    destruct (Hnames (cname p) (in_map cname _ _ Hp)) as [H1 [H2 H3]].
+    split; [exact (has_chain_some _ _ _ (HBp p Hp))|]. split; [apply hp_not_builtin; exact H1|].
     split; [apply rule_sets_jump; apply Hplain; exact Hp|].
     exact (referenced_false_lookup _ _ _ _ H3 Hh). }
-  destruct (ensure_jumps_ok ps tB rs0 Hnd HBh) as [tC [HeC [HlC HpC]]].
-  { apply Hjp. intros p Hp. exact (has_chain_some _ _ _ (HBp p Hp)). }
-  assert (forall x, x <> hostports -> tlookup x tC = tlookup x tB) as HCo.
-  { intros x Hx. rewrite HlC. apply str_eqb_neq in Hx. rewrite Hx. reflexivity. }
-  assert (tlookup hostports tC = Some (rs0 ++ map (jump_rule cname) ps)) as HCh.
-  { rewrite HlC, str_eqb_refl. reflexivity. }
-  destruct (delete_jumps_ok ps tC rs0 Hnd HCh) as [tD [HeD [HlD HpD]]].
-  { apply Hjp. intros p Hp. apply (has_chain_some _ _ [masq_rule p; dnat_rule p]).
-    rewrite HCo; [exact (HBp p Hp)|].
-    intros E. apply Hhp. rewrite <- E. apply in_map. exact Hp. }
-  (* the clean-up batch *)
-  destruct (apply_chain_lines [] (map cname ps) tD) as [tE [HaE [HlE HpE]]].
-  { intros c Hin. apply hp_not_builtin. apply Hnames. exact Hin. }
+  exists tB, tC. split; [exact (restore_some _ _ _ _ Hbatch)|]. split; [exact HeC|].
+  split; [|split; [|split]].
+  - eapply tpres_trans; [exact HpA|]. eapply tpres_trans; [exact HpB|exact HpC].
+  - intros x Hx1 Hx2 Hx3. rewrite HlC. apply str_eqb_neq in Hx2. rewrite Hx2. apply HBo; assumption.
+  - rewrite HlC. assert (str_eqb markmasq hostports = false) as E.
+    { apply str_eqb_neq. intros E. symmetry in E. exact (hostports_ne_markmasq E). }
+    rewrite E. exact HBm.
+  - rewrite HlC, str_eqb_refl. reflexivity.
+Qed.
+
+(** the set-up batch and the first [m] jumps, then a complete CleanPortMapping *)
+Lemma setup_prefix_clean_l : forall (t : table) (ps : list port) (m : nat),
+  has_chain hostports t = true ->
+  NoDup (map cname ps) ->
+  (forall p, In p ps -> proto_plain p) ->
+  (forall p, In p ps -> fresh_chain t (cname p)) ->
+  exists tB tC t2, restore [] t (setup_batch cname ps) = (tB, true) /\
+    ensure_jumps cname (firstn m ps) tB = (tC, true) /\
+    clean cname ps tC = (t2, true) /\
+    forall c, c <> markmasq -> tlookup c t2 = tlookup c t.
+Proof.
+  intros t ps m Hh Hnd Hplain Hfresh.
+  apply has_chain_lookup in Hh. destruct Hh as [rs0 Hh].
+  destruct (setup_prefix_l t ps rs0 m Hh Hnd Hplain Hfresh) as [tB [tC [Hb [He [Hp [Ho [Hm Hhc]]]]]]].
+  destruct (clean_from t tC ps rs0 (jumps (firstn m ps)) Hh Hnd Hplain Hfresh Hp Ho) as [t2 [Hc [Hl _]]].
+  - intros rsm c E Hin. rewrite Hm in E. inversion E. subst rsm. apply mark_rule_no_hp.
+    apply in_map_iff in Hin. destruct Hin as [p [Ep Hp']]. subst c. apply (Hfresh p Hp').
+  - exact Hhc.
+  - intros r. unfold jumps. rewrite <- firstn_map. apply rcount_firstn_le.
+  - exists tB, tC, t2. split; [exact Hb|]. split; [exact He|]. split; [exact Hc|exact Hl].
+Qed.
+
+(** ---- SetupPortMapping followed by CleanPortMapping *)
+Lemma setup_clean_inverse_l : forall (t : table) (ps : list port),
+  has_chain hostports t = true ->
+  NoDup (map cname ps) ->
+  (forall p, In p ps -> proto_plain p) ->
+  (forall p, In p ps -> fresh_chain t (cname p)) ->
+  exists t1 t2, setup cname ps t = (t1, true) /\ clean cname ps t1 = (t2, true) /\
+    forall c, c <> markmasq -> tlookup c t2 = tlookup c t.
+Proof.
+  intros t ps Hh Hnd Hplain Hfresh.
+  destruct (setup_prefix_clean_l t ps (List.length ps) Hh Hnd Hplain Hfresh) as [tB [tC [t2 [Hb [He [Hc Hl]]]]]].
+  rewrite firstn_all in He.
+  exists tC, t2. split; [|split; [exact Hc|exact Hl]].
+  unfold setup. rewrite Hb. exact He.
+Qed.
+
+(** CleanPortMapping for ports none of whose chains exists (a set-up whose batch was refused): accepted,
+    and the table is as before *)
+Lemma clean_fresh_l : forall (t : table) (ps : list port),
+  has_chain hostports t = true ->
+  NoDup (map cname ps) ->
+  (forall p, In p ps -> proto_plain p) ->
+  (forall p, In p ps -> fresh_chain t (cname p)) ->
+  exists t2, clean cname ps t = (t2, true) /\ forall c, tlookup c t2 = tlookup c t.
+Proof.
+  intros t ps Hh Hnd Hplain Hfresh.
+  apply has_chain_lookup in Hh. destruct Hh as [rs0 Hh].
+  destruct (clean_from t t ps rs0 [] Hh Hnd Hplain Hfresh (tpres_refl t)) as [t2 [Hc [Hl Hm]]].
+  - intros x _ _ _. reflexivity.
+  - intros rsm c E Hin. apply in_map_iff in Hin. destruct Hin as [p [Ep Hp]]. subst c.
+    destruct (Hfresh p Hp) as [_ [H3 _]]. exact (referenced_false_lookup _ _ _ _ H3 E).
+  - rewrite app_nil_r. exact Hh.
+  - intros r. simpl. lia.
+  - exists t2. split; [exact Hc|]. intros c.
+    destruct (str_eqb_spec c markmasq) as [E|E]; [subst c; exact Hm|apply Hl; exact E].
+Qed.
+
+(** ---- CleanPortMapping never fails for lack of the ports' chains *)
+Lemma delete_jumps_nochain_run ps : forall t,
+  tlookup hostports t = None ->
+  (forall p, In p ps -> rule_ok [] t (jump_rule cname p) = true) ->
+  delete_jumps cname ps t = (t, true).
+Proof.
+  induction ps as [|p ps IH]; intros t Hl Hok; cbn [delete_jumps]; [reflexivity|].
+  rewrite delete_rule_cases, Hl, (Hok p (or_introl eq_refl)).
+  apply IH; [exact Hl|]. intros q Hq. apply Hok. right. exact Hq.
+Qed.
+
+(** what CleanPortMapping needs: the table is a finite map; the ports' chain names are distinct, not
+    built-in chains and not KUBE-HOSTPORTS; no chain that stays, other than KUBE-HOSTPORTS, jumps to one
+    of the ports' chains (-X of a referenced chain is refused); and the rules of KUBE-HOSTPORTS that jump
+    to the ports' chains are the ports' jump rules, none more often than the ports name it.
+    Nothing is asked of the ports' chains themselves: they may hold anything or not exist. *)
+Definition clean_pre (ps : list port) (t : table) : Prop :=
+  NoDup (map fst t) /\ NoDup (map cname ps) /\
+  (forall p, In p ps -> is_builtin (cname p) = false /\ cname p <> hostports /\ proto_plain p) /\
+  (forall c rs r, tlookup c t = Some rs -> c <> hostports -> ~ In c (map cname ps) -> In r rs ->
+     ~ In (r_target r) (map cname ps)) /\
+  (forall rs r, tlookup hostports t = Some rs -> In (r_target r) (map cname ps) ->
+     (rcount rs r <= rcount (jumps ps) r)%nat).
+
+(** what it guarantees: the ports' chains are gone, KUBE-HOSTPORTS keeps exactly its rules that do not
+    jump to them, every other chain is untouched *)
+Definition clean_post (ps : list port) (t t' : table) : Prop :=
+  (forall p, In p ps -> tlookup (cname p) t' = None) /\
+  (forall c, c <> hostports -> ~ In c (map cname ps) -> tlookup c t' = tlookup c t) /\
+  tlookup hostports t' =
+    match tlookup hostports t with
+    | Some rs => Some (filter (fun r => negb (mem (r_target r) (map cname ps))) rs)
+    | None => None
+    end.
+
+Lemma clean_total_l : forall (t : table) (ps : list port),
+  clean_pre ps t -> exists t', clean cname ps t = (t', true) /\ clean_post ps t t'.
+Proof.
+  intros t ps [Hndt [Hnd [Hports [Hother Hhost]]]].
+  assert (forall c, In c (map cname ps) -> is_builtin c = false) as Hnb.
+  { intros c Hin. apply in_map_iff in Hin. destruct Hin as [p [E Hp]]. subst c. apply (Hports p Hp). }
+  assert (~ In hostports (map cname ps)) as Hhp.
+  { intros Hin. apply in_map_iff in Hin. destruct Hin as [p [E Hp]].
+    destruct (Hports p Hp) as [_ [H _]]. exact (H E). }
+  assert (mem hostports (map cname ps) = false) as Emh by (apply mem_false; exact Hhp).
+  (* the first batch *)
+  destruct (apply_chain_lines [] (map cname ps) t Hnb) as [tA [HaA [HlA HpA]]].
+  assert (forall p, In p ps -> rule_ok [] tA (jump_rule cname p) = true) as HokA.
+  { intros p Hp. apply jump_rule_ok.
+    - apply (has_chain_some _ _ []). rewrite HlA.
+      assert (mem (cname p) (map cname ps) = true) as E by (apply mem_In; apply in_map; exact Hp).
+      rewrite E. reflexivity.
+    - apply Hnb. apply in_map. exact Hp.
+    - apply rule_sets_jump. apply (Hports p Hp). }
+  (* the jumps *)
+  set (keep := fun r : rule => negb (mem (r_target r) (map cname ps))).
+  assert (exists tD, delete_jumps cname ps tA = (tD, true) /\ tpres tA tD /\
+            (forall x, x <> hostports -> tlookup x tD = tlookup x tA) /\
+            tlookup hostports tD =
+              match tlookup hostports t with Some rs => Some (filter keep rs) | None => None end)
+    as [tD [HeD [HpD [HlD HDh]]]].
+  { destruct (tlookup hostports t) as [rs|] eqn:Eh.
+    - assert (tlookup hostports tA = Some rs) as HAh by (rewrite HlA, Emh; exact Eh).
+      exists (tset hostports (filter keep rs) tA). split; [|split; [apply tpres_tset|split]].
+      + rewrite (delete_jumps_chain_run ps tA rs HAh HokA). f_equal. f_equal.
+        rewrite rmfold_exact.
+        * apply filter_ext_in. intros r Hr. unfold notin, keep. f_equal.
+          destruct (rule_in r (jumps ps)) eqn:Ej.
+          -- apply rule_in_In in Ej. unfold jumps in Ej. apply in_map_iff in Ej.
+             destruct Ej as [p [E Hp]]. subst r. symmetry. apply mem_In. cbn [jump_rule r_target].
+             apply in_map. exact Hp.
+          -- symmetry. apply mem_false. intros Hin.
+             pose proof (Hhost rs r eq_refl Hin) as Hc.
+             assert (~ In r (jumps ps)) as Hnj.
+             { intros H. apply rule_in_In in H. congruence. }
+             apply (count_occ_not_In rule_eq_dec) in Hnj.
+             apply (count_occ_In rule_eq_dec) in Hr. lia.
+        * intros r Hr. apply (Hhost rs r eq_refl). unfold jumps in Hr. apply in_map_iff in Hr.
+          destruct Hr as [p [E Hp]]. subst r. cbn [jump_rule r_target]. apply in_map. exact Hp.
+      + intros x Hx. apply tlookup_tset_other. exact Hx.
+      + apply tlookup_tset_same.
+    - assert (tlookup hostports tA = None) as HAh by (rewrite HlA, Emh; exact Eh).
+      exists tA. split; [exact (delete_jumps_nochain_run ps tA HAh HokA)|].
+      split; [apply tpres_refl|]. split; [intros x _; reflexivity|exact HAh]. }
+  (* the second batch *)
+  destruct (apply_chain_lines [] (map cname ps) tD Hnb) as [tE [HaE [HlE HpE]]].
   assert (tpres t tE) as HpresE.
-  { eapply tpres_trans; [exact HpA|]. eapply tpres_trans; [exact HpB|].
-    eapply tpres_trans; [exact HpC|]. eapply tpres_trans; [exact HpD|exact HpE]. }
+  { eapply tpres_trans; [exact HpA|]. eapply tpres_trans; [exact HpD|exact HpE]. }
   destruct (apply_deletes [] (map cname ps) tE Hnd) as [tF [HaF [HlF HpF]]].
-  { intros c Hin. destruct (Hnames c Hin) as [H1 [H2 H3]].
-    split; [|split; [apply hp_not_builtin; exact H1|]].
+  { intros c Hin. split; [|split; [apply Hnb; exact Hin|]].
     - rewrite HlE. apply mem_In in Hin. rewrite Hin. reflexivity.
     - apply referenced_false_intro.
-      + apply (tpres_srefs_false t tE c HpresE). apply referenced_false_srefs. exact H3.
+      + apply (tpres_srefs_false t tE c HpresE). apply srefs_NoDup. exact Hndt.
       + intros n rs. rewrite HlE. destruct (mem n (map cname ps)) eqn:Em.
         { intros E. inversion E. reflexivity. }
-        rewrite HlD. destruct (str_eqb_spec n hostports) as [En|En].
-        { intros E. inversion E. subst rs. exact (referenced_false_lookup _ _ _ _ H3 Hh). }
-        rewrite HCo by exact En. destruct (str_eqb_spec n markmasq) as [En'|En'].
-        { subst n. rewrite HBm. intros E. inversion E. apply mark_rule_no_hp. exact H1. }
-        apply mem_false in Em. rewrite HBo by assumption.
-        intros E. exact (referenced_false_lookup _ _ _ _ H3 E). }
-  exists tC, tF. split; [|split].
-  - unfold setup. rewrite (restore_some _ _ _ _ Hbatch). exact HeC.
-  - unfold clean. rewrite HeD. rewrite clean_batch_eq.
+        destruct (str_eqb_spec n hostports) as [En|En].
+        * subst n. rewrite HDh. destruct (tlookup hostports t) as [rsh|]; [|discriminate].
+          intros E. inversion E. apply chain_refs_false. intros r Hr Et.
+          apply filter_In in Hr. destruct Hr as [_ Hk]. unfold keep in Hk.
+          apply negb_true_iff in Hk. apply mem_false in Hk. apply Hk. rewrite Et. exact Hin.
+        * rewrite HlD by exact En. rewrite HlA, Em. intros E.
+          apply chain_refs_false. intros r Hr Et. apply mem_false in Em.
+          apply (Hother n rs r E En Em Hr). rewrite Et. exact Hin. }
+  exists tF. split; [|split; [|split]].
+  - unfold clean, clean_pre_batch. rewrite <- (map_map cname LChain).
+    rewrite (restore_some _ _ _ _ HaA). rewrite HeD. rewrite clean_batch_eq.
     apply restore_some. exact (apply_lines_app_some _ _ _ _ _ _ HaE HaF).
-  - intros c Hc. rewrite HlF. destruct (mem c (map cname ps)) eqn:Em.
-    + apply mem_In in Em. destruct (Hnames c Em) as [_ [H2 _]]. symmetry. exact H2.
-    + rewrite HlE, Em, HlD. destruct (str_eqb_spec c hostports) as [En|En].
-      * subst c. symmetry. exact Hh.
-      * rewrite HCo by exact En. apply mem_false in Em. apply HBo; assumption.
+  - intros p Hp. rewrite HlF.
+    assert (mem (cname p) (map cname ps) = true) as E by (apply mem_In; apply in_map; exact Hp).
+    rewrite E. reflexivity.
+  - intros c Hc1 Hc2. apply mem_false in Hc2. rewrite HlF, Hc2, HlE, Hc2.
+    rewrite HlD by exact Hc1. rewrite HlA, Hc2. reflexivity.
+  - rewrite HlF, Emh, HlE, Emh. exact HDh.
+Qed.
+
+(** in particular when nothing at all jumps to the ports' chains - e.g. when they do not exist *)
+Lemma clean_unreferenced_l : forall (t : table) (ps : list port),
+  NoDup (map fst t) -> NoDup (map cname ps) ->
+  (forall p, In p ps -> is_builtin (cname p) = false /\ cname p <> hostports /\ proto_plain p) ->
+  (forall p, In p ps -> referenced (cname p) t = false) ->
+  exists t', clean cname ps t = (t', true) /\ clean_post ps t t'.
+Proof.
+  intros t ps Hndt Hnd Hports Href. apply clean_total_l.
+  assert (forall c n rs r, In c (map cname ps) -> tlookup n t = Some rs -> In r rs -> r_target r <> c) as H.
+  { intros c n rs r Hin Hl Hr. apply in_map_iff in Hin. destruct Hin as [p [E Hp]]. subst c.
+    pose proof (referenced_false_lookup _ _ _ _ (Href p Hp) Hl) as Hc.
+    exact (proj1 (chain_refs_false _ _) Hc r Hr). }
+  split; [exact Hndt|]. split; [exact Hnd|]. split; [exact Hports|]. split.
+  - intros c rs r Hl _ _ Hr Hin. exact (H _ c rs r Hin Hl Hr eq_refl).
+  - intros rs r Hl Hin.
+    assert (~ In r rs) as Hn by (intros Hr; exact (H _ hostports rs r Hin Hl Hr eq_refl)).
+    apply (count_occ_not_In rule_eq_dec) in Hn. lia.
 Qed.
 
 (** ---- EnsureBasicRule *)
